@@ -1,0 +1,119 @@
+//go:build verif
+
+package protocol
+
+import (
+	"github.com/taurusgroup/multi-party-sig/internal/round"
+	"github.com/taurusgroup/multi-party-sig/pkg/party"
+)
+
+// VerifRound describes one round a handler has reached (read-only, for the verification harness).
+type VerifRound struct {
+	Number    uint16
+	Broadcast bool // implements round.BroadcastRound
+	P2P       bool // MessageContent() != nil
+	Abort     bool
+	Output    bool
+}
+
+// VerifState is a read-only snapshot of a MultiHandler (for the verification harness).
+type VerifState struct {
+	Round      uint16
+	Final      uint16
+	HasErr     bool
+	Culprits   []party.ID
+	ErrText    string
+	HasResult  bool
+	Rounds     []VerifRound
+	Broadcasts map[uint16]map[party.ID]*Message // filled slots only
+	Messages   map[uint16]map[party.ID]*Message // filled slots only
+	Hashes     map[uint16][]byte
+	OutLen     int
+	OutCap     int
+}
+
+func verifRound(r round.Session) VerifRound {
+	v := VerifRound{Number: uint16(r.Number()), P2P: r.MessageContent() != nil}
+	_, v.Broadcast = r.(round.BroadcastRound)
+	_, v.Abort = r.(*round.Abort)
+	_, v.Output = r.(*round.Output)
+	return v
+}
+
+func filled(q map[round.Number]map[party.ID]*Message) map[uint16]map[party.ID]*Message {
+	out := map[uint16]map[party.ID]*Message{}
+	for n, m := range q {
+		for id, msg := range m {
+			if msg != nil {
+				if out[uint16(n)] == nil {
+					out[uint16(n)] = map[party.ID]*Message{}
+				}
+				out[uint16(n)][id] = msg
+			}
+		}
+	}
+	return out
+}
+
+// VerifState returns a snapshot of the handler's state. It takes the handler's lock.
+func (h *MultiHandler) VerifState() VerifState {
+	h.mtx.Lock()
+	defer h.mtx.Unlock()
+	s := VerifState{
+		Round:      uint16(h.currentRound.Number()),
+		Final:      uint16(h.currentRound.FinalRoundNumber()),
+		HasResult:  h.result != nil,
+		Broadcasts: filled(h.broadcast),
+		Messages:   filled(h.messages),
+		Hashes:     map[uint16][]byte{},
+		OutLen:     len(h.out),
+		OutCap:     cap(h.out),
+	}
+	if h.err != nil {
+		s.HasErr = true
+		s.Culprits = append([]party.ID{}, h.err.Culprits...)
+		if h.err.Err != nil {
+			s.ErrText = h.err.Err.Error()
+		}
+	}
+	for n, r := range h.rounds {
+		_ = n
+		s.Rounds = append(s.Rounds, verifRound(r))
+	}
+	for n, d := range h.broadcastHashes {
+		s.Hashes[uint16(n)] = append([]byte{}, d...)
+	}
+	return s
+}
+
+// VerifTwoPartyState is a read-only snapshot of a TwoPartyHandler.
+type VerifTwoPartyState struct {
+	Round     VerifRound
+	Final     uint16
+	HasErr    bool
+	ErrText   string
+	HasResult bool
+	Stored    []uint16
+	OutLen    int
+}
+
+func (h *TwoPartyHandler) VerifState() VerifTwoPartyState {
+	h.mtx.Lock()
+	defer h.mtx.Unlock()
+	s := VerifTwoPartyState{
+		Round:     verifRound(h.round),
+		Final:     uint16(h.round.FinalRoundNumber()),
+		HasResult: h.result != nil,
+		OutLen:    len(h.out),
+	}
+	if h.err != nil {
+		s.HasErr = true
+		s.ErrText = h.err.Error()
+	}
+	for n, m := range h.messages {
+		if m != nil {
+			s.Stored = append(s.Stored, uint16(n))
+		}
+	}
+	return s
+}
